@@ -255,6 +255,9 @@ def destinations(doc_type):
         return re.sub("\u00a7\\d+\\|", "\u00a7|", t)      # number tokens: ignore the per-rendering token id
     sx.prove(norm(texts[0]) == norm(texts[1]) == norm(texts[2]), "stream, stdout and file give the same document",
              "C14/destinations/%s" % doc_type)
+    again = _export(od, doc_type, "stream")
+    sx.prove(norm(again) == norm(texts[0]), "exporting a second time gives the same document (the export leaves the "
+             "dictionary as it was)", "C14/destinations/%s/second-export" % doc_type)
     for k, t in zip(kinds[3:], texts[3:]):
         sx.prove(norm(t) == norm(texts[0]), "the document does not depend on the rest of the file name",
                  "C14/destinations/%s/%s" % (doc_type, k))
